@@ -1,6 +1,8 @@
 package descgen
 
 import (
+	"github.com/pentops/j5/gen/j5/ext/v1/ext_j5pb"
+	"google.golang.org/protobuf/proto"
 	"google.golang.org/protobuf/reflect/protoreflect"
 	"google.golang.org/protobuf/types/dynamicpb"
 )
@@ -21,6 +23,30 @@ func Populate(md protoreflect.MessageDescriptor, depth, variant int, single bool
 func PopulateField(md protoreflect.MessageDescriptor, i int) *dynamicpb.Message {
 	msg := dynamicpb.NewMessage(md)
 	fillOnly(msg, 0, 0, false, i)
+	return msg
+}
+
+// PopulatePath returns a message in which only the field reached by the proto field
+// path (through singular message fields) is set.
+func PopulatePath(md protoreflect.MessageDescriptor, path []protoreflect.FieldNumber) *dynamicpb.Message {
+	msg := dynamicpb.NewMessage(md)
+	var cur protoreflect.Message = msg
+	for i, n := range path {
+		fd := cur.Descriptor().Fields().ByNumber(n)
+		if fd == nil {
+			return msg
+		}
+		if i == len(path)-1 {
+			if dm, ok := cur.(*dynamicpb.Message); ok {
+				fillOnly(dm, 0, 0, false, fd.Index())
+			}
+			return msg
+		}
+		if fd.Kind() != protoreflect.MessageKind || fd.IsList() || fd.IsMap() {
+			return msg
+		}
+		cur = cur.Mutable(fd).Message()
+	}
 	return msg
 }
 
@@ -51,6 +77,8 @@ func scalarValue(fd protoreflect.FieldDescriptor, depth int) (protoreflect.Value
 		n := vals.Get(0).Number()
 		if vals.Len() > 1 {
 			n = vals.Get(1).Number()
+		} else if eo, _ := proto.GetExtension(fd.Enum().Options(), ext_j5pb.E_Enum).(*ext_j5pb.EnumOptions); eo != nil && eo.NoDefault {
+			return protoreflect.Value{}, false // the enum has no value a J5 message may carry
 		}
 		return protoreflect.ValueOfEnum(n), true
 	case protoreflect.Int32Kind, protoreflect.Sint32Kind, protoreflect.Sfixed32Kind:
@@ -103,12 +131,12 @@ func fillWellKnown(m *dynamicpb.Message) bool {
 		setByName(m, "value", protoreflect.ValueOfString("12.5"))
 		return true
 	case "j5.types.any.v1.Any":
-		setByName(m, "type_name", protoreflect.ValueOfString("j5.types.decimal.v1.Decimal"))
-		setByName(m, "j5_json", protoreflect.ValueOfBytes([]byte(`"12.5"`)))
+		setByName(m, "type_name", protoreflect.ValueOfString("j5.schema.v1.Ref"))
+		setByName(m, "j5_json", protoreflect.ValueOfBytes([]byte(`{"package":"a","schema":"B"}`)))
 		return true
 	case "google.protobuf.Any":
-		setByName(m, "type_url", protoreflect.ValueOfString("type.googleapis.com/j5.types.decimal.v1.Decimal"))
-		setByName(m, "value", protoreflect.ValueOfBytes([]byte{0x0a, 0x04, '1', '2', '.', '5'}))
+		setByName(m, "type_url", protoreflect.ValueOfString("type.googleapis.com/j5.schema.v1.Ref"))
+		setByName(m, "value", protoreflect.ValueOfBytes([]byte{0x0a, 0x01, 'a', 0x12, 0x01, 'B'}))
 		return true
 	case "google.protobuf.Struct", "google.protobuf.Empty", "google.protobuf.Value":
 		return true // left empty
